@@ -72,7 +72,12 @@ def run(ctx):
         if cl:
             se = [c for c in cl[0].calls if c.name == "sync_event"]
             d = describe_operand(cl[0], se[0].args[0])
-            r.check("id" in d, "write_to_buffer/sync_event-same-id", se[0].loc(), "sync_event(id, ..) uses the captured id (%s)" % d)
+            # the closure's id is whatever the enclosing function captured: it must be the id popped from the sync queue (the one synced(id) uses)
+            o = cl[0].upvar_origin(0) if se[0].args[0][0] in ("c", "m") else None
+            src = [describe_operand(o[0], o[1]) for o in [cl[0].upvar_origin(k) for k in range(8)] if o is not None]
+            popped = [x for x in src if "pop_front(" in x and "<Some>.0" in x]
+            r.check(("pop_front(" in d and "<Some>.0" in d) or (d == "id" and bool(popped)), "write_to_buffer/sync_event-same-id", se[0].loc(), "sync_event(id, ..) uses the id popped from the sync queue (%s)" % d[-60:],
+                    "sync_event is given %s, not the id popped from the sync queue" % d[-80:])
         dsa = [a for a in aggregates(wb, "agent_model::WriteResult", "DataStillAvailable")]
         done = [a for a in aggregates(wb, "agent_model::WriteResult", "Done") if wb.dominates(ve["Some"], a[0])]
         ok = bool(dsa) and bool(done)
